@@ -215,6 +215,7 @@ def model_input(s, kind):
 
 
 def correspondence(ctx):
+    ic.check_fingerprint(ctx)
     basecorr.run(ctx)
     stream = build_stream(ctx)
     impl = run_impl(ctx)
@@ -225,7 +226,6 @@ def correspondence(ctx):
             ctx.mismatch("iso.%s" % item[0], {"entry": item[0], "sep": item[1], "zero_as_utc": item[2], "kind": item[3],
                                               "string": item[4]}, i, g)
     ctx.traces += len(reqs)
-    ctx.count("fingerprint_" + ic.fingerprint())
 
 
 def oracle(ctx):
